@@ -25,6 +25,7 @@ THEOREMS = [
     'CpProofs.C14.C14_damaged_full_false',
     'CpProofs.C14.C14_sweep_abort_witness',
     'CpProofs.C14.C14_damaged_partial',
+    'CpProofs.C14.C14_except_clause_table',
 ]
 TRUSTED_BASE = [
     'pickle is a parameter of the model: the torn-file theorem is relative to the contract "a proper prefix of a '
